@@ -1425,7 +1425,9 @@ class Engine:
     def m_SStr_split(self, path, s, e):
         if len(e.args) == 2 and isinstance(e.args[1], ast.Constant) and e.args[1].value == 1:
             return SSplit(s.t, self.to_str(path, self.ev(path, e.args[0])))
-        raise EngineError("str.split form not supported (only split(sep, 1))")
+        if len(e.args) == 1:
+            return SSplit(s.t, self.to_str(path, self.ev(path, e.args[0])), exact=True)
+        raise EngineError("str.split form not supported (only split(sep[, 1]))")
 
     def m_SStr_lstrip(self, path, s, e):
         if e.args:
@@ -1651,6 +1653,10 @@ class Engine:
             if len(tgt.elts) != 2:
                 raise EngineError("unpacking split(sep, 1) into other than two names")
             found = z3.Contains(v.s, v.sep)
+            if v.exact:
+                i0 = z3.IndexOf(v.s, v.sep, 0)
+                rest = z3.SubString(v.s, i0 + z3.Length(v.sep), z3.Length(v.s))
+                found = z3.And(found, z3.Not(z3.Contains(rest, v.sep)))
             if "ValueError" in path.catch:
                 raise _Fork(found, "ValueError")
             if "!ValueError" not in path.catch:
